@@ -14,7 +14,7 @@ from experimaestro.xpmutils import DirectoryContext
 from xvschema import cfg as S
 
 CLS = {"K": S.K, "K2": S.K2, "K2Old": S.K2Old, "K2Older": S.K2Older, "V": S.V, "LW": S.LW, "T": S.T, "T0": S.T0, "T1": S.T1, "G": S.G,
-       "PX": S.PX, "QX": S.QX, "N": S.N, "DH": S.DH, "GF": S.GF}
+       "PX": S.PX, "QX": S.QX, "N": S.N, "DH": S.DH, "GF": S.GF, "OD": S.OD, "MD": S.MD}
 
 
 def pyval(v, objs):
@@ -74,6 +74,8 @@ def build(graph, rng=None, shuffle_dicts=False):
             val = pyval(v, objs)
             if v[0] in ("int", "float") and isinstance(val, (int, float)):
                 val = maybe_tag(val, v[0], rng)
+                if rng is not None and v[0] == "int" and type(val) is int and abs(val) < 2**31 and rng.random() < 0.15:
+                    val = float(val)          # an integral float is an int for an int parameter
             kw[a] = val
         if rng:
             items = list(kw.items())
@@ -172,7 +174,7 @@ def rand_graph(rng, n=3, tasks=True):
     ids = [str(i + 1) for i in range(n)]
     g = {}
     for i in ids:
-        cls = rng.choice(["K", "K", "K", "K2", "K2Old", "K2Older", "V", "G", "G", "LW", "T0", "PX", "QX", "N", "DH", "GF"] if tasks else ["K", "K", "K2", "V", "G", "PX", "QX", "N", "GF"])
+        cls = rng.choice(["K", "K", "K", "K2", "K2Old", "K2Older", "V", "G", "G", "LW", "T0", "PX", "QX", "N", "DH", "GF", "OD", "MD"] if tasks else ["K", "K", "K2", "V", "G", "PX", "QX", "N", "GF", "OD", "MD"])
         vals = {}
 
         def ref():
@@ -203,6 +205,12 @@ def rand_graph(rng, n=3, tasks=True):
             vals["ll"] = ["list", [["list", [["int", rng.choice(INTS)] for _ in range(rng.choice([0, 1, 2]))]] for _ in range(rng.choice([0, 1, 2]))]]
             vals["s1"] = ["str", rng.choice(STRS)]
             vals["s2"] = ["str", rng.choice(STRS)]
+        elif cls == "OD":
+            vals["a"] = ["int", rng.choice([0, 1, 5])]
+            vals["threads"] = ["int", rng.choice([4, 4, 8])]
+        elif cls == "MD":
+            vals["x"] = ["int", rng.choice([1, 1, 3])]
+            vals["y"] = ["int", rng.choice([2, 2, 5])]
         elif cls in ("PX", "QX"):
             vals["a"] = ["int", rng.choice([0, 1, 5])]
             vals["c"] = ref() if rng.random() < 0.4 else ["none"]
@@ -225,7 +233,7 @@ def rand_graph(rng, n=3, tasks=True):
     # a configuration-valued default: left alone (the parent's own copy, possibly edited in place) or replaced by a K2 node
     for i in ids:
         if g[i]["cls"] == "DH":
-            k2s = [j for j in ids if g[j]["cls"] == "K2" and not g[j].get("dflt")]
+            k2s = [j for j in ids if g[j]["cls"] in ("K2", "K2Old", "K2Older") and not g[j].get("dflt")]
             how = rng.choice(["copy", "copy", "edited", "explicit"])
             if how == "explicit" and k2s:
                 g[i]["vals"]["child"] = ["cfg", rng.choice(k2s)]
